@@ -497,6 +497,7 @@ UpdQueryOK(name, d) ==
     /\ Refs(d) \subseteq DOMAIN tags
     /\ \A r \in Refs(d) : ~Reaches(tags, r, name)
     /\ IsMarkName(name) => d.k = "M"
+    /\ tags[name].convs # {} => FeatConvOK(d)          \* (the rule of attachConverterToTag also holds for a query change)
 UpdQuery(name, d, pick) ==
     /\ UpdQueryOK(name, d)
     /\ LET old == tags[name]
